@@ -967,7 +967,7 @@ func runC15(run *Run, replay string) Spec {
 		if k%4 == 0 {
 			c15StreamDefaults(run, r)
 		}
-		if k%200 == 0 {
+		if k%40 == 0 {
 			c15StreamConcurrent(run, r)
 		}
 		if k < 3 {
